@@ -14,6 +14,7 @@ import (
 	"sort"
 	"strings"
 	"sync"
+	"sync/atomic"
 	"time"
 
 	"github.com/skx/evalfilter/v2/object"
@@ -70,11 +71,47 @@ type runObs struct {
 	out   Outcome
 	vars  string
 	calls string
+	steps int64
+}
+
+// C07's own formulation: a freshly prepared evaluator holding the same variables must
+// behave exactly like the much-used one, and at the same cost (instructions dispatched).
+func freshCompare(c *Check, row *Row, src string, fns []FnSpec, opt bool, mode string, ri int, step RunStep, objArg interface{}, used runObs, po progOpts) {
+	var vars [][2]interface{}
+	for _, kv := range parsePairs(step.Pre) {
+		o, ok := mustVal(kv[1]).Object()
+		if !ok {
+			return
+		}
+		vars = append(vars, [2]interface{}{asString(kv[0]), o})
+	}
+	rctx := newResetCtx()
+	f, err := newMachine(src, vars, fns, opt, rctx)
+	if err != nil {
+		return
+	}
+	si := f.countSteps(po.stepBudget)
+	defer f.release()
+	o := f.execAct(step.Act, objArg)
+	fresh := runObs{out: o, calls: describeCalls(o.Calls), vars: describeGlobals(f), steps: atomic.LoadInt64(&si.n)}
+	where := fmt.Sprintf("run %d of %d, object %s, variables before %s", ri+1, len(row.Runs), string(step.Obj), string(step.Pre))
+	det := map[string]interface{}{"where": where}
+	switch {
+	case used.out.class() != fresh.out.class():
+		c.disagree(&Disagreement{Kind: "history-result", Script: src, Mode: mode, Expected: "fresh evaluator: " + fresh.out.class(), Got: "used evaluator: " + used.out.class(), Row: row.Raw, Detail: det})
+	case used.calls != fresh.calls:
+		c.disagree(&Disagreement{Kind: "history-calls", Script: src, Mode: mode, Expected: "fresh evaluator: " + fresh.calls, Got: "used evaluator: " + used.calls, Row: row.Raw, Detail: det})
+	case used.vars != fresh.vars:
+		c.disagree(&Disagreement{Kind: "history-vars", Script: src, Mode: mode, Expected: "fresh evaluator: " + fresh.vars, Got: "used evaluator: " + used.vars, Row: row.Raw, Detail: det})
+	case used.steps != fresh.steps:
+		c.disagree(&Disagreement{Kind: "history-cost", Script: src, Mode: mode, Expected: fmt.Sprintf("fresh evaluator: %d instructions", fresh.steps), Got: fmt.Sprintf("used evaluator: %d instructions", used.steps), Row: row.Raw, Detail: det})
+	}
 }
 
 type progOpts struct {
 	freshCompare bool          // C07: also compare every run with a fresh evaluator holding the same variables
 	deadline     time.Duration // per evaluator
+	stepBudget   int64         // > 0: runs are cut off (context cancelled) after this many instructions; the context is re-armed for the next run
 }
 
 func compareVars(m *Machine, raw json.RawMessage) (bool, string, string) {
@@ -120,7 +157,11 @@ func replayProgRow(c *Check, row *Row, po progOpts) {
 			nontrivial = true
 		}
 	}
-	c.count(src+"|"+string(row.Vars), nontrivial)
+	key := src + "|" + string(row.Vars)
+	for _, r := range row.Runs {
+		key += "|" + string(r.Obj)
+	}
+	c.count(key, nontrivial)
 	c.sample(map[string]interface{}{"script": src, "runs": len(row.Runs), "first_expected": func() string {
 		if len(row.Runs) > 0 && row.Runs[0].Exp != nil {
 			return mustVal(row.Runs[0].Exp.Out).String()
@@ -138,15 +179,34 @@ func replayProgRow(c *Check, row *Row, po progOpts) {
 			c.fail("row variable without object: " + string(row.Vars))
 			return
 		}
-		ctx, cancel := context.WithTimeout(context.Background(), po.deadline)
+		var ctx context.Context
+		cancel := func() {}
+		var rctx *resetCtx
+		if po.stepBudget > 0 {
+			rctx = newResetCtx()
+			ctx = rctx
+		} else {
+			ctx, cancel = context.WithTimeout(context.Background(), po.deadline)
+		}
 		m, err := newMachine(src, vars, fns, opt, ctx)
 		if err != nil {
 			cancel()
 			c.disagree(&Disagreement{Kind: "prepare-failed", Script: src, Mode: modes[mi], Expected: "accepted", Got: err.Error(), Row: row.Raw})
 			return
 		}
+		var si *stepInfo
+		if po.stepBudget > 0 || po.freshCompare {
+			si = m.countSteps(po.stepBudget)
+			defer m.release()
+		}
 		skipping := false
 		for ri, step := range row.Runs {
+			if rctx != nil {
+				rctx.reset()
+			}
+			if si != nil {
+				atomic.StoreInt64(&si.n, 0)
+			}
 			obj, ok := objFromPairs(step.Obj)
 			if !ok {
 				c.fail("object field without host value: " + string(step.Obj))
@@ -154,12 +214,18 @@ func replayProgRow(c *Check, row *Row, po progOpts) {
 				return
 			}
 			var objArg interface{}
-			if obj != nil {
+			if obj != nil && !step.NilObj {
 				objArg = obj
 			}
 			o := m.execAct(step.Act, objArg)
 			ro := runObs{out: o, calls: describeCalls(o.Calls), vars: describeGlobals(m)}
+			if si != nil {
+				ro.steps = atomic.LoadInt64(&si.n)
+			}
 			obs[mi] = append(obs[mi], ro)
+			if po.freshCompare && len(step.Pre) > 0 && string(step.Pre) != "null" {
+				freshCompare(c, row, src, fns, opt, modes[mi], ri, step, objArg, ro, po)
+			}
 			if step.Exp == nil || skipping {
 				continue
 			}
@@ -186,6 +252,9 @@ func replayProgRow(c *Check, row *Row, po progOpts) {
 				if ok, want, got := compareVars(m, step.Exp.Vars); !ok {
 					c.disagree(&Disagreement{Kind: "vars", Script: src, Mode: modes[mi], Expected: want, Got: got, Row: row.Raw, Detail: map[string]interface{}{"where": where}})
 				}
+			}
+			if o.Idle != "" {
+				c.disagree(&Disagreement{Kind: "machine-not-restored", Script: src, Mode: modes[mi], Expected: "machine left as it was found", Got: o.Idle, Row: row.Raw, Detail: map[string]interface{}{"where": where}})
 			}
 			if o.Scopes != 0 {
 				c.disagree(&Disagreement{Kind: "scopes-open", Script: src, Mode: modes[mi], Expected: "0 open scopes after the run", Got: fmt.Sprint(o.Scopes), Row: row.Raw, Detail: map[string]interface{}{"where": where}})
